@@ -931,20 +931,22 @@ func (g *gstate) directed(k int) {
 		}
 		g.script("q", "m 1 t=groupaction k=unrecord", "m 0 t=groupaction k=unrecord", "q",
 			"m 0 t=useraction k=identify dst="+disk, "m 0 t=groupaction k=record", "q", "m 0 t=join k=leave g=g1", "q", "probe")
-	case 12: // joins and leaves are announced under the group's lock: with a slow member present, a join that overlaps another
-		// member's leave (or a second join) must still leave every list equal to the membership
+	case 12: // joins and leaves are announced under the group's lock: with a slow member present, a join that overlaps other
+		// members' leaves (or a further join) must still leave every list equal to the membership
 		g.script("group g1 u=alice:pw:op u=bob:pw:present u=carl:pw:message w=*:message", "client 0 c0", "client 1 c1", "client 2 c2", "client 3 c3",
-			"m 0 t=join k=join g=g1 u=alice pw=pw", "m 1 t=join k=join g=g1 u=bob pw=pw", "q", "mock g1 mk", "q", "block mk 1",
+			"client 4 c4", "client 5 c5",
+			"m 0 t=join k=join g=g1 u=alice pw=pw", "m 1 t=join k=join g=g1 u=bob pw=pw", "m 3 t=join k=join g=g1 u=will pw=x",
+			"m 4 t=join k=join g=g1 u=zed pw=x", "q", "mock g1 mk", "q", "block mk 1",
 			"m 2 t=join k=join g=g1 u=carl pw=pw")
 		switch r.Intn(3) {
 		case 0:
-			g.script("m 1 t=join k=leave g=g1")
+			g.script("m 1 t=join k=leave g=g1", "m 3 t=join k=leave g=g1", "m 4 t=join k=leave g=g1")
 		case 1:
-			g.script("drop 0")
+			g.script("drop 0", "drop 3", "m 4 t=join k=leave g=g1")
 		default:
-			g.script("m 3 t=join k=join g=g1 u=will pw=x", "m 1 t=join k=leave g=g1")
+			g.script("m 5 t=join k=join g=g1 u=yan pw=x", "m 1 t=join k=leave g=g1", "drop 4", "m 3 t=join k=leave g=g1")
 		}
-		g.script("release mk 0", "release mk 0", "block mk 0", "q", "probe")
+		g.script("release mk 0", "release mk 0", "release mk 0", "block mk 0", "q", "probe")
 	case 11: // C16: an edit whose rewrite of the token file fails is refused and must not take effect, now or later
 		g.script("group g1 u=alice:pw:op w=*:message", "tok tk1 g1 % present+message "+common.Pick(r, "P", "F")+" -",
 			"tok tk2 g1 % message F -", "client 0 c0", "client 1 c1",
@@ -990,7 +992,7 @@ func gen(t *common.Trace, e common.Engine, r *common.Rng, thorough bool) {
 		g := &gstate{t: t, e: e, r: r, thorough: thorough, sleeps: &sleeps, maxSleep: maxSleep, histAge: map[string]int{}}
 		t.Case(fmt.Sprint(n))
 		e.Reset()
-		if r.Intn(100) < 12 {
+		if r.Intn(100) < 20 {
 			k := r.Intn(13)
 			t.Count(fmt.Sprintf("directed:%d", k))
 			g.directed(k)
